@@ -167,6 +167,8 @@ class ScriptedAdbDevice(object):
           continue
         sc = self.script[idx] if idx < len(self.script) else {}
         wr = sc.get('wrtes', [])
+        if sc.get('echo') and not s.get('host_data'):
+          continue      # a request/response service: silent until the host has written on this stream
         if s['sent'] < len(wr):
           self._emit('WRTE', s['remote'], s['local'], wr[s['sent']])
           s['sent'] += 1
@@ -186,6 +188,7 @@ class ScriptedAdbDevice(object):
         # nothing released following merge order; if merge entries are all blocked, fall back to any ready stream
         if self.merge:
           ready = [i for i, s in enumerate(self.streams) if s['opened'] and not s['closed'] and not s['awaiting_ack'] and
+                   not ((self.script[i] if i < len(self.script) else {}).get('echo') and not s.get('host_data')) and
                    (s['sent'] < len((self.script[i] if i < len(self.script) else {}).get('wrtes', [])) or
                     (self.script[i] if i < len(self.script) else {}).get('close'))]
           blocked_entries = [i for i in self.merge if i not in ready]
@@ -240,6 +243,7 @@ class ScriptedAdbDevice(object):
         s['host_wrte_unacked'] = True     # until the host has read our OKAY (never, if this stream does not acknowledge)
       if s is not None and (self.script[s['idx']] if s['idx'] < len(self.script) else {}).get('ack_host_writes', True):
         self._emit('OKAY', s['remote'], s['local'], meta=('ack', s['local']))
+      self._pump()
     elif cmd == 'CLSE':
       if s is not None:
         s['closed'] = True
